@@ -528,6 +528,8 @@ def c14(tier):
     uw.uw10(P, C)
     # 'the result is a well-formed table': strides of the convolved shape
     st.st1(P, C, only=('convolve',))
+    # 'all other dimensions are unchanged': the new knot field goes into the convolved dimension only
+    uw.uw11(P, C)
     return C.finish()
 
 
